@@ -1,11 +1,12 @@
 #!/bin/bash
-# usage: try_patch.sh <patch.diff>   - applies the patch to /repo, runs all quick checks in one analysis, reverts.
+# usage: try_patch.sh <patch.diff>   - applies the patch to /repo (or $TRY_REPO, a scratch worktree), runs all quick checks in one analysis, reverts.
 set -u
 PATCH="$1"
-cd /repo || exit 2
+R="${TRY_REPO:-/repo}"
+cd "$R" || exit 2
 if [ -n "$(git status --porcelain)" ]; then echo "/repo not clean" >&2; exit 2; fi
 git apply "$PATCH" || { echo "patch does not apply" >&2; exit 2; }
-out=$(/verif/bin/ogcheck -all -no-evidence -repo /repo 2>&1)
+out=$(/verif/bin/ogcheck -all -no-evidence -repo "$R" 2>&1)
 git checkout -- . && git clean -fdq
 alarms=$(echo "$out" | grep -E '^C[0-9]+ VIOLATED' | awk '{print $1}' | paste -sd,)
 undec=$(echo "$out" | grep -E '^C[0-9]+ UNDECIDED' | awk '{print $1}' | paste -sd,)
